@@ -49,11 +49,14 @@ def run_one(m):
 
 def main():
     args = sys.argv[1:]
-    jobs, key, files = 3, None, []
+    jobs, key, files, jsonout = 3, None, [], None
+    rows = []
     while args:
         a = args.pop(0)
         if a == "-j":
             jobs = int(args.pop(0))
+        elif a == "--json":
+            jsonout = args.pop(0)
         elif a == "-k":
             key = args.pop(0)
         else:
@@ -85,6 +88,10 @@ def main():
             det = "; ".join("%s rc=%d %s %ss %s" % (k, v["rc"], (v["sigs"][:2] or ""), v["s"], v["other"] or "") for k, v in r["checks"].items())
             print("%-28s suite=%-10s %-11s %s" % (r["name"], r.get("suite"), status, det[:260]))
             sys.stdout.flush()
+            rows.append({"name": r["name"], "file": m.get("file") or m["edits"][0]["file"], "suite": r.get("suite"), "status": status,
+                         "checks": {k: {"rc": v["rc"], "sigs": v["sigs"][:2]} for k, v in r["checks"].items()}})
+    if jsonout:
+        json.dump(rows, open(jsonout, "w"), indent=1)
     print("mutants: %d, not as expected: %d" % (len(muts), missed))
     sys.exit(1 if missed else 0)
 
